@@ -231,6 +231,8 @@ def run_shards(prop, modname, tier, seed, shards, jobs, shard_timeout):
                 try:
                     with open(out, "rb") as f:
                         results[idx] = pickle.load(f)
+                    if results[idx].get("crashed"):
+                        failures.append(results[idx]["crashed"])
                 except Exception as x:
                     failures.append("shard %d wrote unreadable output: %r" % (idx, x))
             if results[idx] is None:
